@@ -13,7 +13,9 @@ import (
 	"io/ioutil"
 	"math/rand"
 	"net"
+	"os"
 	"runtime"
+	"strconv"
 	"sync/atomic"
 	"time"
 
@@ -372,6 +374,13 @@ func checkConn(s *stream, al altered, rnd *rand.Rand) {
 }
 
 func main() {
+	if len(os.Args) == 5 && os.Args[1] == "-duplex-child" {
+		seed, _ := strconv.ParseInt(os.Args[2], 10, 64)
+		rounds, _ := strconv.Atoi(os.Args[3])
+		frames, _ := strconv.Atoi(os.Args[4])
+		duplexChild(seed, rounds, frames)
+		return
+	}
 	run = vf.Start("C05", "exploration")
 	r := run
 	r.SetRule("a case = (stream of reference-framed messages, session counter position, one alteration, path direct|connection); alterations: every single-bit flip, " +
@@ -640,6 +649,7 @@ func main() {
 	}
 	farReplays(r, rnd)
 	handoverAtomicity(r, rnd)
+	duplexAdversary(r, rnd)
 	r.Floor("direct_cases", int(r.Counter("direct_cases")), 5000)
 	r.Floor("connection_cases", int(r.Counter("connection_cases")), 200)
 	r.Floor("connection_cases_with_keys_installed_during_a_pending_read", int(r.Counter("connection_cases_with_keys_installed_during_a_pending_read")), 40)
